@@ -199,6 +199,69 @@ pub fn unlock_order(g: &GroupRec) -> Vec<Violation> {
     v
 }
 
+/// An invocation that ends with an *internal* error while its jobs are still
+/// running: one of the names on its command line lies below a regular file
+/// (`s0/x`: stat fails with ENOTDIR, which is not a failed build script), the
+/// others are slow targets.  A second invocation asks for the same slow
+/// targets a little later.
+fn error_exit_case(rng: &mut Rng, seed: u64) -> Case {
+    let n = rng.range(1, 3) as usize;
+    let mut rules: Vec<(String, Rule)> = Vec::new();
+    let mut names = Vec::new();
+    for i in 0..n {
+        rules.push((
+            format!("w{}.do", i),
+            Rule {
+                version: 0,
+                stmts: vec![Stmt::IfChange(vec!["s0".into()]), Stmt::Work(rng.range(20, 300))],
+            },
+        ));
+        names.push(format!("w{}", i));
+    }
+    let mut sc = Scenario {
+        family: "c06-error-exit".into(),
+        files: vec![("s0".into(), source_content("s0", 0))],
+        rules,
+        ..Default::default()
+    };
+    if rng.chance(1, 2) {
+        // the state directory exists already
+        sc.history
+            .push(Step::Cmds(vec![redo_cmd(rng, "redo-ifchange", &["s0".to_string()], 1, 0)]));
+    }
+    let mut ts = names.clone();
+    let at = rng.range(if n > 1 { 1 } else { 1 }, ts.len() as u64) as usize;
+    ts.insert(at, "s0/x".into());
+    let prog = if rng.chance(1, 2) { "redo" } else { "redo-ifchange" };
+    let mut a = redo_cmd(rng, prog, &ts, 1, 200);
+    a.argv.retain(|x| !x.starts_with("-j"));
+    if prog == "redo" {
+        a.argv.insert(1, format!("-j{}", rng.range(2, 4)));
+    } else {
+        a.make_tokens = Some(rng.range(2, 4) as u32);
+    }
+    let mut cmds = vec![a];
+    for _ in 0..rng.range(1, 2) {
+        let t = rng.pick(&names).clone();
+        let prog = if rng.chance(1, 2) { "redo" } else { "redo-ifchange" };
+        let mut c = redo_cmd(rng, prog, &[t], 2, 200);
+        c.start_step = rng.range(100, 900);
+        cmds.push(c);
+    }
+    sc.history.push(Step::Cmds(cmds));
+    Case {
+        property: "C06".into(),
+        seed,
+        scenario: sc,
+        knobs: Knobs::draw(rng),
+        opts: PlayOpts {
+            record_events: true,
+            ..Default::default()
+        },
+        meta: BTreeMap::new(),
+    }
+}
+
 impl Property for C06 {
     fn id(&self) -> &'static str {
         "C06"
@@ -213,13 +276,18 @@ impl Property for C06 {
         "2-4 top-level redo/redo-ifchange commands (each -j1..4) started together or at a drawn later \
          step on overlapping targets of random graphs -- on a fresh project or, in half of the runs, as a \
          rebuild after a complete build and source edits (checksummed targets, out-of-band re-checks) --, \
-         optionally with one redo process killed mid-build; \
+         optionally with one redo process killed mid-build; every eighth scenario: an invocation that \
+         ends with an internal error (a name below a regular file) while its jobs run, and a later one \
+         asking for the same targets; \
          oracle: do-begin..do-end/death intervals of one target never overlap across all processes, and \
          the builder's unlock of the target's lock byte comes after it reaped the script and wrote to the \
          state database; non-trivial = >=1 preemption and >=1 script; distinct = (scenario, preemption \
          signature)"
     }
-    fn generate(&self, rng: &mut Rng, seed: u64, _tier: Tier, _index: u64) -> Case {
+    fn generate(&self, rng: &mut Rng, seed: u64, _tier: Tier, index: u64) -> Case {
+        if index % 8 == 7 {
+            return error_exit_case(rng, seed);
+        }
         let mut p = GraphParams::small(rng);
         p.n_targets = rng.range(2, 6) as usize;
         p.max_work_ms = *rng.pick(&[5, 50, 200]);
@@ -319,6 +387,9 @@ impl Property for C06 {
             *m.entry("lock_wait_entered".to_string()).or_insert(0) += lw;
             if g.kill_fired.is_some() {
                 *m.entry("redo_killed_mid_build".to_string()).or_insert(0) += 1;
+            }
+            if g.results.iter().any(|r| r.stderr.contains("Not a directory")) {
+                *m.entry("internal_error_exit".to_string()).or_insert(0) += 1;
             }
             let multi = exec_counts(g).values().filter(|n| **n > 1).count() as u64;
             *m.entry("target_built_by_two_invocations".to_string()).or_insert(0) += multi;
